@@ -63,17 +63,17 @@ Theorem C08_no_second_driver_bit tbl D0 obs : writer_ok tbl D0 obs = true ->
   ~ exists v, in_ivl v (ivl_n tbl m) = true /\ in_ivl v d = true.
 Proof. exact (writer_ok_no_shared_bit tbl D0 obs). Qed.
 
-(* inside an accepted net the readers denote pairwise disjoint bits *)
+(* inside an accepted net the distinct reader ranges (net_readers: x and its full-width slice count once) are pairwise disjoint *)
 Theorem C08_net_drives_no_bit_twice tbl obs : net_disjoint_ok tbl obs = true ->
-  forall wn, In wn obs -> ForallOrdPairs (fun a b => ivl_overlap a b = false) (reader_ivls tbl wn).
+  forall wn, In wn obs -> ForallOrdPairs (fun a b => ivl_overlap a b = false) (net_readers tbl wn).
 Proof. exact (net_disjoint_ok_sound tbl obs). Qed.
 
 (* "in simulation every member of a net carries the writer's value": the net block (copy the writer's bits onto each
    reader in turn) establishes it whenever the acceptor's shape check holds, and leaves the writer untouched *)
 Theorem C08_net_values tbl obs : net_disjoint_ok tbl obs = true ->
   forall w net, In (w, net) obs -> const_n tbl w = false -> forall e,
-  (forall v, in_ivl v (ivl_n tbl w) = true -> run_net (ivl_n tbl w) (reader_ivls tbl (w, net)) e v = e v) /\
-  (forall r, In r (reader_ivls tbl (w, net)) -> carries (ivl_n tbl w) r (run_net (ivl_n tbl w) (reader_ivls tbl (w, net)) e)).
+  (forall v, in_ivl v (ivl_n tbl w) = true -> run_net (ivl_n tbl w) (net_readers tbl (w, net)) e v = e v) /\
+  (forall r, In r (reader_ivls tbl (w, net)) -> carries (ivl_n tbl w) r (run_net (ivl_n tbl w) (net_readers tbl (w, net)) e)).
 Proof. exact (net_values_accepted tbl obs). Qed.
 
 (* non-vacuity: statements 0-1, 2-1, 3-4 (and a swapped, permuted copy); node 0 is bits [0,8) of root 0 and is written by
